@@ -156,6 +156,14 @@ pub fn all(data: &Value, args: &Vec<&Value>) -> Result<Value, Error> {
     // if it's an object, in case it evaluates to a string or array, which
     // we will then pass on
 
+    // The elements of an array written in the rule are rules themselves and
+    // are evaluated (lazily, below). The elements of a collection that was
+    // computed (or read from the data) are plain values, never rules.
+    let items_are_rules = match first_arg {
+        Value::Array(_) => true,
+        _ => false,
+    };
+
     let _new_item: Value;
     let potentially_evaled_first_arg = match first_arg {
         Value::Object(_) => {
@@ -211,12 +219,15 @@ pub fn all(data: &Value, args: &Vec<&Value>) -> Result<Value, Error> {
             if !res {
                 return Ok(false);
             };
-            let _parsed_item = Parsed::from_value(i)?;
             // Evaluate each item as we go, in case we can short-circuit
-            let evaluated_item = _parsed_item.evaluate(data)?;
-            Ok(logic::truthy_from_evaluated(
-                &predicate.evaluate(&evaluated_item.into())?,
-            ))
+            let _evaluated_item: Value;
+            let item = if items_are_rules {
+                _evaluated_item = Parsed::from_value(i)?.evaluate(data)?.into();
+                &_evaluated_item
+            } else {
+                i
+            };
+            Ok(logic::truthy_from_evaluated(&predicate.evaluate(item)?))
         })
     })?;
 
@@ -237,6 +248,14 @@ pub fn some(data: &Value, args: &Vec<&Value>) -> Result<Value, Error> {
     // the items fail to match the predicate. However, we will parse
     // if it's an object, in case it evaluates to a string or array, which
     // we will then pass on
+
+    // The elements of an array written in the rule are rules themselves and
+    // are evaluated (lazily, below). The elements of a collection that was
+    // computed (or read from the data) are plain values, never rules.
+    let items_are_rules = match first_arg {
+        Value::Array(_) => true,
+        _ => false,
+    };
 
     let _new_item: Value;
     let potentially_evaled_first_arg = match first_arg {
@@ -293,12 +312,15 @@ pub fn some(data: &Value, args: &Vec<&Value>) -> Result<Value, Error> {
             if res {
                 return Ok(true);
             };
-            let _parsed_item = Parsed::from_value(i)?;
             // Evaluate each item as we go, in case we can short-circuit
-            let evaluated_item = _parsed_item.evaluate(data)?;
-            Ok(logic::truthy_from_evaluated(
-                &predicate.evaluate(&evaluated_item.into())?,
-            ))
+            let _evaluated_item: Value;
+            let item = if items_are_rules {
+                _evaluated_item = Parsed::from_value(i)?.evaluate(data)?.into();
+                &_evaluated_item
+            } else {
+                i
+            };
+            Ok(logic::truthy_from_evaluated(&predicate.evaluate(item)?))
         })
     })?;
 
